@@ -264,7 +264,31 @@ TPoll ==
                       [expected |-> rm, got |-> removedLog]) /\ UNCHANGED S
              ELSE S' = Sweep(r.S) /\ UNCHANGED <<dead, nbad>>
 
-Next == TReset \/ TEndHist \/ TConnect \/ TSend \/ TRecv \/ TClose \/ TShutWr \/ TShutRd \/ TKill \/ TSetLimit
+\* requests() called while nothing is ready, epoll_wait interrupted by a signal (EINTR): no event is
+\* handled, the sweep still runs, the call returns an empty list (PollEintr of MC_Server, bound here)
+TPollEintr ==
+    /\ Ev("poll_eintr") /\ Common /\ RxSame
+    /\ LET ev == Rec[l] IN
+       IF dead THEN UNCHANGED <<S, dead, nbad>>
+       ELSE IF ReadyBad(ev) # "" THEN Step(ev, "", S)
+       ELSE IF ev.res = "panic" THEN Bad("pollerr:panic", [res |-> ev.res]) /\ UNCHANGED S
+       ELSE
+       LET hooks == ev.hooks
+           batches == SelectSeq(hooks, LAMBDA h : h.h = "batch")
+           other == SelectSeq(hooks, LAMBDA h : h.h \in {"accept", "refuse", "write"})
+           removedLog == {hooks[i].fd : i \in {j \in 1..Len(hooks) : hooks[j].h = "remove"}}
+           rm == Removed(S)
+       IN IF ev.res # "ok" THEN Bad("pollerr:eintr-" \o ev.res, [hooks |-> hooks]) /\ UNCHANGED S
+          ELSE IF Len(batches) # 1 \/ batches[1].ev # <<>> \/ other # <<>>
+               THEN Bad("batch:event-handled-after-eintr", [hooks |-> hooks]) /\ UNCHANGED S
+          ELSE IF ev.yielded # 0 THEN Bad("yield:extra", [expected |-> <<>>, got |-> ev.yielded]) /\ UNCHANGED S
+          ELSE IF rm # removedLog THEN
+               Bad(IF \E f \in removedLog \ rm : S.srv[f].infl > 0 THEN "sweep:in-flight-connection-removed"
+                   ELSE IF removedLog \ rm # {} THEN "sweep:live-connection-removed" ELSE "sweep:dead-connection-kept",
+                   [expected |-> rm, got |-> removedLog]) /\ UNCHANGED S
+          ELSE S' = Sweep(S) /\ UNCHANGED <<dead, nbad>>
+
+Next == TPollEintr \/ TReset \/ TEndHist \/ TConnect \/ TSend \/ TRecv \/ TClose \/ TShutWr \/ TShutRd \/ TKill \/ TSetLimit
         \/ TRespond \/ TRespondMany \/ TFlush \/ TFdCount \/ TPoll
 Spec == Init /\ [][Next]_vars
 
